@@ -94,8 +94,13 @@ def run_lifecycle_shards(pid, binary, seed, count, families, shards=NCPU, extra=
             p.kill()
             raise Inconclusive("harness shard timed out")
         if p.returncode != 0:
-            log(err.decode()[-2000:])
-            raise Inconclusive("harness shard failed rc=%s" % p.returncode)
+            txt = err.decode(errors="replace")
+            crash = os.path.join(wd, "shard_crash.%d.txt" % int(time.time()))
+            open(crash, "w").write(txt)
+            log(txt[:1500])
+            log("...")
+            log(txt[-1500:])
+            raise Inconclusive("harness shard failed rc=%s (stderr in %s)" % (p.returncode, crash))
         try:
             st = json.load(open(out + ".stats.json"))
         except Exception:
